@@ -328,7 +328,58 @@ func (c *ctx) streamM() error {
 			c.historyCase(rt.l, rt.name)
 		}
 	}
+	if c.want("enc") && c.tier == "thorough" {
+		for _, rt := range roots {
+			if c.hugeNestedCase(rt.l, rt.name) {
+				break
+			}
+		}
+	}
 	return nil
+}
+
+// hugeNestedCase (thorough tier, about 1.5 GB of memory): a generated message whose SUB-message
+// carries a string/bytes field of 2^28+5 bytes, so that the sub-message's length prefix is in the
+// five-byte class. Marshal must return normally; the reference must parse the bytes back to a
+// message whose nested field has that length. Returns false if the type has no such field.
+func (c *ctx) hugeNestedCase(l *Loaded, name string) bool {
+	m := l.File.Msg(name)
+	for i := range m.Fields {
+		fd := &m.Fields[i]
+		if fd.Kind != "message" || fd.Label == "repeated" || fd.Oneof != "" || fd.Cast != "" || fd.Ref == name {
+			continue
+		}
+		inner := gen.Zero(l.File, fd.Ref)
+		inner, ok := withBigField(c, l, fd.Ref, inner, 1<<28+5)
+		if !ok {
+			continue
+		}
+		v := gen.Zero(l.File, name)
+		if l.File.ShapeOf(fd).Pointer {
+			v.Elems[i] = val.SomeOf(inner)
+		} else {
+			v.Elems[i] = inner
+		}
+		msg := l.Reg.ToStruct(name, v)
+		data, bad := realMarshal(msg)
+		c.rep.Evaluations++
+		c.count("huge_nested_cases")
+		okLen := len(data) > 1<<28+5 && len(data) < 1<<28+64
+		if bad != "" || !okLen {
+			c.disagree(Disagreement{Kind: "panic", Check: "marshal",
+				Case: caseOf(l, name, map[string]string{"what": "sub-message " + fd.Name + " holding one string/bytes field of 2^28+5 bytes (five-byte length prefix)"}),
+				Got:  map[string]string{"real": bad, "len": fmt.Sprint(len(data))}})
+			return true
+		}
+		ref := l.Ref.New(name)
+		if err := proto.Unmarshal(data, ref); err != nil {
+			c.disagree(Disagreement{Kind: "real!=ref", Check: "reference-parses-marshal-output",
+				Case: caseOf(l, name, map[string]string{"what": "sub-message " + fd.Name + " holding one string/bytes field of 2^28+5 bytes"}),
+				Got:  map[string]string{"ref": "error: " + err.Error()}})
+		}
+		return true
+	}
+	return false
 }
 
 // withBigField puts a large string/bytes value into the first top-level string/bytes field.
@@ -427,6 +478,10 @@ func (c *ctx) caseM(b *batch, l *Loaded, name string) error {
 	// message unchanged by Marshal (C17)
 	if after := l.Reg.FromStruct(name, msg).String(); after != vs {
 		c.disagree(Disagreement{Kind: "argument-modified", Check: "marshal-leaves-message", Case: cs(nil), Got: map[string]string{"after": short(after)}})
+	}
+	// the returned bytes are the caller's: they share no memory with the message (C17)
+	if c.want("enc") {
+		c.aliasOracle(l, name, msg, v, data, cs)
 	}
 	// a nil element of a repeated message field is written as an empty element, never dropped (C08)
 	if c.want("enc") {
@@ -985,6 +1040,40 @@ func (c *ctx) nilElementOracle(l *Loaded, name string, msg picobuf.Message, cs f
 		}
 		return
 	}
+}
+
+// aliasOracle (C17): the slice returned by Marshal must not share memory with the message. The whole
+// capacity of the result is overwritten; marshalling the same message again must give the original
+// bytes. Run on the message itself and — for a message type that captures unrecognized fields — on
+// the message holding NOTHING but captured bytes (no known field is written before them, so the
+// encoder's buffer is still empty when they are appended).
+func (c *ctx) aliasOracle(l *Loaded, name string, msg picobuf.Message, v val.Val, data []byte, cs func(map[string]string) map[string]string) {
+	probe := func(m picobuf.Message, what string) {
+		first, bad := realMarshal(m)
+		if bad != "" {
+			return
+		}
+		keep := append([]byte(nil), first...)
+		full := first[:cap(first)]
+		for i := range full {
+			full[i] = 0xA5
+		}
+		again, bad2 := realMarshal(m)
+		c.count("alias_probes")
+		if bad2 != "" || !c.sameBytes(l, name, again, keep) {
+			c.disagree(Disagreement{Kind: "result-aliases-message", Check: "result-owned-by-caller",
+				Case: cs(map[string]string{"what": what, "first_result": hexs(keep)}),
+				Got:  map[string]string{"after_overwriting_the_result": short(hexs(again) + bad2)}})
+		}
+	}
+	probe(msg, "Marshal(m); overwrite the result's whole capacity; Marshal(m) again")
+	if m := l.File.Msg(name); m != nil && m.Capture {
+		z := gen.Zero(l.File, name)
+		z.B = []byte{0xf8, 0x07, 0x01, 0xfa, 0x07, 0x03, 'a', 'b', 'c'} // fields 127 (varint 1) and 127 (bytes "abc")
+		probe(l.Reg.ToStruct(name, z), "message holding only captured unrecognized bytes: Marshal; overwrite the result; Marshal again")
+	}
+	_ = v
+	_ = data
 }
 
 // hasBytesField: does message `name` (transitively) hold a `bytes` field, a map with bytes values, or
